@@ -68,12 +68,13 @@ def wire_forms(m):
     `dump` = model_dump(exclude_none=True) (HTTP / SSE: httpx `json=`), `json` = the text of
     model_dump_json(exclude_none=True) (stdio) decoded again; a dict is sent as it is."""
     from chuk_mcp.protocol import fast_json
+    import json as exact  # the harness's own, type-exact reader (integers of any size stay integers)
 
     out = {"src": type(m).__name__}
     if isinstance(m, dict):
         forms = {"dump": m}
         try:
-            forms["json"] = fast_json.loads(fast_json.dumps(m))
+            forms["json"] = exact.loads(fast_json.dumps(m))
         except Exception as ex:  # noqa: BLE001
             out["json_exc"] = type(ex).__name__
     else:
@@ -85,13 +86,13 @@ def wire_forms(m):
         except Exception as ex:  # noqa: BLE001
             out["dump_exc"] = type(ex).__name__
         try:
-            forms["json"] = fast_json.loads(m.model_dump_json(exclude_none=True))
+            forms["json"] = exact.loads(m.model_dump_json(exclude_none=True))
         except Exception as ex:  # noqa: BLE001
             out["json_exc"] = type(ex).__name__
         if "dump" in forms:
             # the stdio writer's two-pass path: json.dumps(model_dump(exclude_none=True))
             try:
-                forms["dumpjson"] = fast_json.loads(fast_json.dumps(forms["dump"]))
+                forms["dumpjson"] = exact.loads(fast_json.dumps(forms["dump"]))
             except Exception as ex:  # noqa: BLE001
                 out["dumpjson_exc"] = type(ex).__name__
     for k, w in forms.items():
@@ -112,8 +113,10 @@ def restate_check(m):
         return None
     out = {}
 
+    import json as exact
+
     def agree(x):
-        return J.of_py(fast_json.loads(x.model_dump_json(exclude_none=True))) == J.of_py(x.model_dump(exclude_none=True))
+        return J.of_py(exact.loads(x.model_dump_json(exclude_none=True))) == J.of_py(x.model_dump(exclude_none=True))
 
     try:
         m.model_dump_json(exclude_none=True)
@@ -131,7 +134,7 @@ def restate_check(m):
             out["nested"] = agree(c)
         if hasattr(m, "model_copy") and getattr(m, "id", None) is not None:
             c2 = m.model_copy(update={"id": "other-id"})
-            out["model_copy"] = agree(c2) and fast_json.loads(c2.model_dump_json(exclude_none=True)).get("id") == "other-id"
+            out["model_copy"] = agree(c2) and exact.loads(c2.model_dump_json(exclude_none=True)).get("id") == "other-id"
         c3 = copy.deepcopy(m)
         if getattr(c3, "method", None) is not None:
             c3.method = "reassigned"
